@@ -24,7 +24,7 @@ int __wrap_RAND_bytes(unsigned char *buf, int num) {
     if (verif_rand_fail)
         return 0;
     for (i = 0; i < num; i++)
-        buf[i] = verif_rand_pos < verif_rand_len ? verif_rand[verif_rand_pos++] : (uint8_t)(0xA0 + verif_rand_ctr++);
+        buf[i] = verif_rand_pos < verif_rand_len ? verif_rand[verif_rand_pos++] : 0;
     return 1;
 }
 static void set_rand(const char *hex) {
@@ -213,7 +213,7 @@ static void h_case_begin(void) {
     opidx = 0;
     verif_conf_file = NULL; verif_conf_loaded = 0; nrx = 0; nrewrite_names = 0;
     debug_init("verif");
-    debug_set_level(1);
+    debug_set_level(getenv("VERIF_DEBUG") ? atoi(getenv("VERIF_DEBUG")) : 1);
 }
 
 static void h_line(char *kind, char *rest) {
